@@ -65,7 +65,9 @@ def rfc_kind(st, inp, client, hs, ts, hr, tr, cb):
          if (st == OPEN or st == HC_LOCAL) else
          K_RST if st == HC_REMOTE else                      # L2
          K_CLOSED if st == CLOSED else K_PROTO) if inp == R_HEADERS else
-        ((K_OK if not hr else K_PROTO) if (st == OPEN or st == HC_LOCAL) else K_PROTO) if inp == R_INFO else
+        # an interim (1xx) response is a HEADERS frame: on a closed stream it is classified like any other HEADERS
+        # frame (RFC 7540 5.1 'closed'; C20: after our own reset it is a frame racing the reset, never a connection error)
+        ((K_OK if not hr else K_PROTO) if (st == OPEN or st == HC_LOCAL) else K_CLOSED if st == CLOSED else K_PROTO) if inp == R_INFO else
         ((K_OK if client is None else K_PROTO) if st == IDLE else
          (K_OK if client is True else K_PROTO) if (st == OPEN or st == HC_LOCAL) else
          K_RST if st == HC_REMOTE else                      # L2
